@@ -250,6 +250,16 @@ def run(ctx: Context, rep) -> None:
                    message=f"validator must {required} for {label}: " +
                    "; ".join(f"{r[0].name}: {r[2]}" for r in results))
         for m, mode in validators:
+            # registered at all: the validator decorator is the outermost one
+            d0 = m.node.decorator_list[0]
+            n0 = ((dotted(d0.func) if isinstance(d0, ast.Call) else
+                   dotted(d0)) or "").rsplit(".", 1)[-1]
+            rep.ob("C17.validate", n0 in ("field_validator", "validator"),
+                   loc=m.loc(), where=m.qualname,
+                   construct="outermost decorator @" + n0,
+                   message="pydantic registers a field validator only when "
+                   "@field_validator is applied on top of @classmethod")
+        for m, mode in validators:
             # returns its argument unchanged
             params = [p for p in m.params() if p not in ("cls", "self")]
             rets = [n for n in m.body_nodes() if isinstance(n, ast.Return)]
